@@ -1305,6 +1305,34 @@ func (e *Exec) stdlibCall(st *State, call *ast.CallExpr, fn *types.Func, key str
 	case "fmt.Printf", "fmt.Println", "fmt.Print":
 		return []Term{IntLit(0), NilCont}, true
 	}
+	if full == "encoding/binary.Write" && len(args) == 3 && args[0].T.Sort == SCont {
+		// fixed-size unsigned value, little endian: encoding/binary encodes it into a fresh buffer and calls w.Write once
+		if b, ok := types.Unalias(args[2].Ty).Underlying().(*types.Basic); ok && strings.Contains(args[1].Ty.String(), "littleEndian") {
+			n := map[types.BasicKind]int64{types.Uint8: 1, types.Uint16: 2, types.Uint32: 4}[b.Kind()]
+			ms := types.NewMethodSet(args[0].Ty)
+			if sel := ms.Lookup(nil, "Write"); n > 0 && sel != nil {
+				bt := types.Universe.Lookup("byte").Type()
+				ref := e.allocRef(st, "binwrite")
+				key := elemKey(bt)
+				e.heapInit(key, bt)
+				m := e.heapMetas[key]
+				zero := Term{fmt.Sprintf("((as const %s) %s)", ArraySort(SInt, m.vsort), e.zeroElem(bt).S), ArraySort(SInt, m.vsort)}
+				st.heap[key] = e.bindHeap(key, Store(e.heapGet(st, key), ref, zero))
+				buf := MkSlice(ref, IntLit(0), IntLit(n), IntLit(n))
+				v := e.toSort(args[2].T, SInt)
+				e.noFrame = true
+				for i := int64(0); i < n; i++ {
+					e.storeElem(st, buf, bt, IntLit(i), Mod(Div(v, pow2(uint(8*i))), IntLit(256)))
+				}
+				e.noFrame = false
+				e.note("stdlib", "encoding/binary.Write of a fixed-size unsigned value: one w.Write of its little-endian bytes, the error of that Write is returned")
+				res := e.callInterface(st, call, sel.Obj().(*types.Func), args[0], []TV{{buf, types.NewSlice(bt)}})
+				if len(res) == 2 {
+					return []Term{res[1]}, true
+				}
+			}
+		}
+	}
 	if path == "encoding/binary" && recv != nil {
 		need := map[string]int64{"Uint16": 2, "Uint32": 4, "Uint64": 8, "PutUint16": 2, "PutUint32": 4, "PutUint64": 8}[fn.Name()]
 		little := strings.Contains(recv.Ty.String(), "littleEndian")
